@@ -71,7 +71,7 @@ def replay(harness: str, params: dict, args: dict, func: str = "check", timeout:
         if line.startswith("REPLAY "):
             return json.loads(line[len("REPLAY "):])
     if p.returncode in (124, 137):
-        return {"ok": True, "holds": False, "detail": f"replay did not terminate within {timeout}s", "timeout": True}
+        return {"ok": True, "holds": False, "in_bounds": True, "detail": f"replay did not terminate within {timeout}s", "timeout": True}
     return {"ok": False, "error": "no result", "rc": p.returncode, "stderr": p.stderr[-1500:]}
 
 
